@@ -224,6 +224,13 @@ def childProcess {ε} (interrupt : ε) : ExecResult ε → Except ε Int
   | .keyboardInterrupt => .error interrupt
   | .failed e => .error e
 
+/-- `verbose_child_process`: `logging.debug("Calling …")`, then `child_process(command)` -/
+def verboseChildProcess {ε} (interrupt : ε) : ExecResult ε → Except ε Int := childProcess interrupt
+
+/-- `runner = verbose_child_process if verbose else child_process` -/
+def runnerOf {ε} (verbose : Bool) (interrupt : ε) : ExecResult ε → Except ε Int :=
+  if verbose then verboseChildProcess interrupt else childProcess interrupt
+
 /-- `parallel_execute(commands, cpus, timeout)`: always through the pool, also for one cpu -/
 def parallelExecute {α ε} (configCpus : Nat) (runner : α → Except ε Int) (commands : List α)
     (cpus : Nat) (hasTimeout : Bool) (evs : List Event) : Outcome ε Int :=
